@@ -173,7 +173,7 @@ def shrink(case):
 
 def run(ctx):
     quick = ctx.tier == "quick"
-    plan = [(["T:3"], [2, 1]), (["T:d3", "T:p2", "T:a3"], [1])] + explore.extra_stages("light") if quick else [(["T:3"], [2, 2]), (["T:u4", "T:m0,5,5,9"], [2, 1]), (["T:3"], [1, 1, 1])]
+    plan = [(["T:3"], [2, 1]), (["T:d3", "T:p2", "T:a3"], [2])] + explore.extra_stages("light") if quick else [(["T:3"], [2, 2]), (["T:u4", "T:m0,5,5,9"], [2, 1]), (["T:3"], [1, 1, 1])]
     ctx.rule = ("E1 BFS over programs x EVERY cut point (after the source and after every operation) x cut kind {persist (fused / unfused), to_delayed -> from_delayed with and "
                 "without divisions, legacy dataframe round trip}; the remaining operations are applied to the re-imported collection and the optimised result, the schema and "
                 "(where the cut carries them) the divisions must equal the uncut program's; the continued graph is checked for closure; non-trivial = at least one cut executed")
